@@ -43,7 +43,7 @@ Tpl(name) ==
       [] name = "MC"  -> <<PMsg, PPos>>
       [] name = "KM"  -> <<PKey, PMsg>>
       [] name = "KC"  -> <<PKey, PMsg>>
-      [] name = "MP"  -> <<[k |-> "msgpad"], PPos>>          \* {msg:7}{pos}: the message padded with blanks to 7 columns (the blanks wrap like any text)
+      [] name = "MP"  -> <<PPos, [k |-> "msgpad"]>>          \* {pos}{msg:7}: the message padded with blanks to 7 columns; the blanks end the line and wrap like any text
 
 (* Text a template part expands to.  Tabs in the message, the prefix,      *)
 (* template literals and custom-key output all become tabw spaces (C16).   *)
